@@ -134,6 +134,12 @@ class Bus:
         self.latest[topic] = mid
         self.pub[topic].publish(msg)
         self.check_inboxes("after publish on %s" % topic)
+        # synchronous delivery: when publish() returns - also a publish() issued from inside a subscriber callback - every subscriber of
+        # THIS topic has received the message (subscribers of an enclosing publication on another topic may still be waiting)
+        for i, box in enumerate(self.inbox):
+            if self.sub_topic[i] == topic and (not box or box[-1] != mid or len(box) != len(self.ref_pubs[topic])):
+                if self.ref_pubs[topic] and self.ref_pubs[topic][-1] == mid:
+                    self.fails.append(("delivered_synchronously_before_publish_returns", dict(topic=topic, subscriber=i, message=mid, inbox=list(box), published=list(self.ref_pubs[topic]))))
 
     def _relay(self, i, msg):
         self.inbox[i].append(float(msg.data["time"]))
